@@ -232,15 +232,40 @@ class Engine:
             else:
                 fa = ["-M", s]
         cmd = [exe] + fa + list(args)
+        cwd, look = "/", None
+        lk = case.get("lookup")
+        if lk:
+            # started by bare name through PATH: an earlier element of PATH (empty, ".", a relative or an absolute name) is a
+            # directory holding something called like the program that exec passes over - a file without execute permission
+            # or a directory - owned by a third party.  The program that runs is still the one in bin/<variant>.
+            with self.lock:
+                self.seq += 1
+                look = os.path.join(self.root, "look%d" % self.seq)
+            os.makedirs(os.path.join(look, "sub"))
+            os.chmod(look, 0o755); os.chmod(os.path.join(look, "sub"), 0o755)
+            where = os.path.join(look, "sub") if lk["elem"] == "rel" else look
+            dec = os.path.join(where, case["prog"])
+            if lk["kind"] == "dir":
+                os.mkdir(dec); os.chmod(dec, 0o755)
+            else:
+                open(dec, "w").write("#!/bin/sh\necho not the program\n")
+                os.chmod(dec, 0o644)
+            os.chown(dec, lk["owner"], lk["owner"])
+            elem = {"": "", ".": ".", "rel": "sub", "abs": look}[lk["elem"]]
+            env["PATH"] = elem + ":" + os.path.dirname(exe) + ":/usr/bin:/bin"
+            cwd = look
+            cmd = [case["prog"]] + fa + list(args)
         if who in ("nobody", "suid"):
             cmd = ["setpriv", "--reuid=%d" % NOBODY, "--regid=%d" % NOBODY, "--clear-groups"] + cmd
         open(mark, "w").close()
         os.chmod(mark, 0o666)
         try:
-            p = subprocess.run(cmd, env=env, stdout=subprocess.PIPE, stderr=subprocess.PIPE, timeout=30, cwd="/")
+            p = subprocess.run(cmd, env=env, stdout=subprocess.PIPE, stderr=subprocess.PIPE, timeout=30, cwd=cwd)
             rc, o, e = p.returncode, p.stdout.decode("latin-1"), p.stderr.decode("latin-1")
         except subprocess.TimeoutExpired:
             rc, o, e = -999, "", "TIMEOUT"
+        if look:
+            shutil.rmtree(look, ignore_errors=True)
         m = open(mark).read()
         return rc, o, e, m
 
